@@ -58,6 +58,7 @@ type pair struct {
 	dead      bool
 	upgraded  bool // the server's handshake response has been forwarded to the client
 	stalled   bool // kind "stall": the pumps stop reading
+	stallC2S  bool // kind "stall-c2s": only the client-to-server direction is silent and unread
 	mu        sync.Mutex
 }
 
@@ -226,6 +227,11 @@ func (pr *pair) strike(kind string) {
 		pr.blackhole = true
 		pr.stalled = true
 		return
+	case "stall-c2s":
+		// one direction dies silently: what the client sends is neither forwarded nor read any more, while the
+		// server's messages still reach the client
+		pr.stallC2S = true
+		return
 	case "close1000", "close1001":
 		// the server side ends the connection the polite way: a close frame (normal closure / going away)
 		// towards the client, then the TCP close
@@ -250,7 +256,7 @@ func (pr *pair) strike(kind string) {
 func (pr *pair) read(src net.Conn, buf []byte) (int, error) {
 	for {
 		pr.mu.Lock()
-		st, dead := pr.stalled, pr.dead
+		st, dead := pr.stalled || (pr.stallC2S && src == pr.c), pr.dead
 		pr.mu.Unlock()
 		if !st {
 			break
@@ -312,6 +318,12 @@ func (p *Proxy) pump(pr *pair, src, dst net.Conn, dir string) {
 			return true
 		}
 		if pr.isBlackhole() {
+			return true // swallowed
+		}
+		pr.mu.Lock()
+		oneWay := pr.stallC2S && dir == "c2s"
+		pr.mu.Unlock()
+		if oneWay {
 			return true // swallowed
 		}
 		_, err := dst.Write(b)
